@@ -31,6 +31,7 @@ type Obs struct {
 	Shard   int      `json:"shard"`
 	Attempt int64    `json:"attempt"`
 	Rows    []string `json:"rows,omitempty"`
+	Keys    []string `json:"keys,omitempty"` // key columns of each row (when Hooks.WantKeys)
 	Err     string   `json:"err,omitempty"` // error passed to the writer / returned by the scanner
 	EOF     bool     `json:"eof,omitempty"`
 }
@@ -43,6 +44,8 @@ type Hooks struct {
 	Point func(ctx context.Context, site, kind, key string) error
 	// Record receives observations.
 	Record func(Obs)
+	// WantKeys makes writer observations carry the key columns of each row.
+	WantKeys bool
 	// Partition may override a repartition function's result (bad-partition fault).
 	Partition func(site, key string, nshard, p int) int
 }
@@ -481,6 +484,9 @@ func Build(s *spec.Spec, args []bigslice.Slice) bigslice.Slice {
 						r[c] = a[4+c].Index(j).Interface()
 					}
 					ob.Rows = append(ob.Rows, spec.CanonRow(r))
+					if H.WantKeys {
+						ob.Keys = append(ob.Keys, spec.KeyCanon(r, inT.Prefix))
+					}
 				}
 				if H.Record != nil {
 					H.Record(ob)
